@@ -158,13 +158,11 @@ Section Driver.
     mkst b (fc s) v (pr s) (jf s) (total s) (ps s) (rest s) (off s) (unread s) (sched s)
          (ncb s) (cbsum s) (nrd s) (maxsp s) (log s).
 
-  (* the loop body of SymbolFile::parse from `let size = input_reader.read(buf.space())?` on *)
-  Definition step_rest (s1 : st) : stepres :=
+  (* the loop body of SymbolFile::parse after `let size = input_reader.read(buf.space())?`:
+     [n] bytes were read into [sp] bytes of space, the reader is left in state [sch'] *)
+  Definition step_after_read (n : Z) (sch' : list Z) (sp : Z) (s1 : st) : stepres :=
     let b := buf s1 in
-    if negb (geom_ok b) then StPanic 1 else
-    let sp := space b in
     let buffer_full := sp =? 0 in
-    let '(n, sch') := read_n sp s1 in
     let b2 := fill b n in
     let s2 := mkst b2 (fc s1) (tg s1) (pr s1) (jf s1) (total s1) (ps s1) (rest s1) (off s1)
                    (unread s1 - n) sch' (ncb s1) (cbsum s1) (nrd s1 + 1) (Z.max (maxsp s1) sp) (log s1) in
@@ -178,6 +176,14 @@ Section Driver.
       else if total s2 =? 0 then Done (RErr 3 0) s2
       else Done (RErr 4 (lineno (ps s2))) s2
     else parse_phase (set_tg s2 false).
+
+  (* ... from `let buffer_full = ...; let size = input_reader.read(buf.space())?` on *)
+  Definition step_rest (s1 : st) : stepres :=
+    let b := buf s1 in
+    if negb (geom_ok b) then StPanic 1 else
+    let sp := space b in
+    let '(n, sch') := read_n sp s1 in
+    step_after_read n sch' sp s1.
 
   (* one iteration of `loop { ... }` *)
   Definition step (s0 : st) : stepres :=
@@ -210,6 +216,48 @@ Section Driver.
 
   Definition drive (lines : list L) (tail : Z) (sch : list Z) : outcome (result PS * st) :=
     match iter_pos (fuel_for lines tail) (init_st lines tail sch) with
+    | Next _ => OutOfFuel
+    | Done r s => Ret (r, s)
+    | StPanic t => Panic t
+    end.
+
+  (* ---------------- SymbolFile::parse_async: the same loop; only the read step differs.
+     The reader is `input_reader: &mut &[u8]` over the current HTTP chunk; [sched] holds the bytes
+     left in that slice followed by the sizes of the chunks the response will still deliver.
+     `if input_reader.is_empty() { chunk = response.chunk().await?.unwrap_or_default(); ... }`
+     then `input_reader.read(buf.space())` = min(space, slice).  (An empty chunk in the middle of
+     the stream would read as 0 bytes, i.e. as end of input: chunks are assumed non-empty.) *)
+  Definition read_async (sp : Z) (s : st) : Z * list Z :=
+    let '(cur, more) := match sched s with [] => (0, []) | c :: t => (c, t) end in
+    let '(cur1, more1) := if cur <=? 0 then match more with [] => (0, []) | c :: t => (c, t) end
+                          else (cur, more) in
+    let n := Z.max 0 (Z.min sp cur1) in
+    (n, (cur1 - n) :: more1).
+
+  Definition step_rest_async (s1 : st) : stepres :=
+    let b := buf s1 in
+    if negb (geom_ok b) then StPanic 1 else
+    let sp := space b in
+    let '(n, sch') := read_async sp s1 in
+    step_after_read n sch' sp s1.
+
+  Definition step_async (s0 : st) : stepres :=
+    if pr s0 && negb (geom_ok (buf s0)) then StPanic 2 else
+    step_rest_async (if pr s0 then recovery s0 else s0).
+
+  Fixpoint iter_pos_async (p : positive) (s : st) : stepres :=
+    match p with
+    | xH => step_async s
+    | xO q => match iter_pos_async q s with Next s1 => iter_pos_async q s1 | r => r end
+    | xI q => match step_async s with
+              | Next s1 => match iter_pos_async q s1 with Next s2 => iter_pos_async q s2 | r => r end
+              | r => r
+              end
+    end.
+
+  (* `slice = &[][..]` before the loop: the current slice is empty *)
+  Definition drive_async (lines : list L) (tail : Z) (chunks : list Z) : outcome (result PS * st) :=
+    match iter_pos_async (fuel_for lines tail) (init_st lines tail (0 :: chunks)) with
     | Next _ => OutOfFuel
     | Done r s => Ret (r, s)
     | StPanic t => Panic t
